@@ -1,11 +1,26 @@
 // Regenerated facts: tiny go/ast extractors (std-lib only) that rewrite
 // lean/Tabmodel/Generated/*.lean from /repo's current source on every check.
+//
+//   WriteSites  every call that passes an io.Writer parameter (or calls a method on it) in the
+//               renderer packages, with checked = "its error result reaches a return"
+//   TypeSwitch  the ordered arms of the type switch in (*Cell).Update with what each assigns to c.str
+//   Schedule    every invokePropertyCallbacks call of the core package, in source order, with nesting
+//   Globals     every package-level variable of every non-test file, whether anything outside init
+//               writes it, and for the registry whether each access is between Lock and Unlock
 package main
 
 import (
+	"bytes"
 	"flag"
 	"fmt"
+	"go/ast"
+	"go/parser"
+	"go/printer"
+	"go/token"
 	"os"
+	"path/filepath"
+	"sort"
+	"strings"
 )
 
 func main() {
@@ -18,6 +33,588 @@ func main() {
 	}
 }
 
+var fset = token.NewFileSet()
+
+func src(n ast.Node) string {
+	var b bytes.Buffer
+	printer.Fprint(&b, fset, n)
+	s := b.String()
+	s = strings.Join(strings.Fields(s), " ")
+	return s
+}
+
+func leanStr(s string) string {
+	var b strings.Builder
+	b.WriteByte('"')
+	for _, r := range s {
+		switch {
+		case r == '"':
+			b.WriteString("\\\"")
+		case r == '\\':
+			b.WriteString("\\\\")
+		case r < 0x20 || r > 0x7e:
+			b.WriteByte('?')
+		default:
+			b.WriteRune(r)
+		}
+	}
+	b.WriteByte('"')
+	return b.String()
+}
+
+func parseDir(dir string) ([]*ast.File, error) {
+	ents, err := os.ReadDir(dir)
+	if err != nil {
+		return nil, err
+	}
+	var files []*ast.File
+	for _, e := range ents {
+		n := e.Name()
+		if e.IsDir() || !strings.HasSuffix(n, ".go") || strings.HasSuffix(n, "_test.go") {
+			continue
+		}
+		f, err := parser.ParseFile(fset, filepath.Join(dir, n), nil, parser.ParseComments)
+		if err != nil {
+			return nil, err
+		}
+		files = append(files, f)
+	}
+	return files, nil
+}
+
 func run(repo, out string) error {
-	return nil
+	if err := writeSites(repo, out); err != nil {
+		return err
+	}
+	if err := typeSwitch(repo, out); err != nil {
+		return err
+	}
+	if err := schedule(repo, out); err != nil {
+		return err
+	}
+	return globals(repo, out)
+}
+
+// ---------------------------------------------------------------- write sites
+
+type site struct {
+	file    string
+	line    int
+	call    string
+	checked bool
+}
+
+func isIOWriter(e ast.Expr) bool {
+	s, ok := e.(*ast.SelectorExpr)
+	if !ok {
+		return false
+	}
+	x, ok := s.X.(*ast.Ident)
+	return ok && x.Name == "io" && s.Sel.Name == "Writer"
+}
+
+// usesWriter: the call passes one of the writer identifiers as an argument or calls a method on it
+func usesWriter(c *ast.CallExpr, ws map[string]bool) bool {
+	for _, a := range c.Args {
+		if id, ok := a.(*ast.Ident); ok && ws[id.Name] {
+			return true
+		}
+	}
+	if s, ok := c.Fun.(*ast.SelectorExpr); ok {
+		if id, ok := s.X.(*ast.Ident); ok && ws[id.Name] {
+			return true
+		}
+	}
+	return false
+}
+
+func isErrNotNil(e ast.Expr) (string, bool) {
+	b, ok := e.(*ast.BinaryExpr)
+	if !ok || b.Op != token.NEQ {
+		return "", false
+	}
+	id, ok := b.X.(*ast.Ident)
+	nl, ok2 := b.Y.(*ast.Ident)
+	if !ok || !ok2 || nl.Name != "nil" {
+		return "", false
+	}
+	return id.Name, true
+}
+
+func bodyReturns(b *ast.BlockStmt) bool {
+	if b == nil || len(b.List) == 0 {
+		return false
+	}
+	_, ok := b.List[len(b.List)-1].(*ast.ReturnStmt)
+	return ok
+}
+
+// lastLHSName: the identifier receiving the call's last (error) result
+func lastLHSName(a *ast.AssignStmt) string {
+	if len(a.Lhs) == 0 {
+		return ""
+	}
+	if id, ok := a.Lhs[len(a.Lhs)-1].(*ast.Ident); ok {
+		return id.Name
+	}
+	return ""
+}
+
+func writeSites(repo, out string) error {
+	var sites []site
+	for _, pkg := range []string{"csv", "json", "markdown", "html", "texttable"} {
+		files, err := parseDir(filepath.Join(repo, pkg))
+		if err != nil {
+			return err
+		}
+		for _, f := range files {
+			for _, d := range f.Decls {
+				fn, ok := d.(*ast.FuncDecl)
+				if !ok || fn.Body == nil {
+					continue
+				}
+				ws := map[string]bool{}
+				for _, p := range fn.Type.Params.List {
+					if isIOWriter(p.Type) {
+						for _, n := range p.Names {
+							ws[n.Name] = true
+						}
+					}
+				}
+				if len(ws) == 0 {
+					continue
+				}
+				checked := map[*ast.CallExpr]bool{}
+				var calls []*ast.CallExpr
+				// classify by statement shape
+				var walkBlock func(list []ast.Stmt)
+				walkStmt := func(s ast.Stmt, next ast.Stmt) {}
+				walkBlock = func(list []ast.Stmt) {
+					for i, s := range list {
+						var next ast.Stmt
+						if i+1 < len(list) {
+							next = list[i+1]
+						}
+						walkStmt(s, next)
+					}
+				}
+				walkStmt = func(s ast.Stmt, next ast.Stmt) {
+					switch st := s.(type) {
+					case *ast.IfStmt:
+						if as, ok := st.Init.(*ast.AssignStmt); ok && len(as.Rhs) == 1 {
+							if c, ok := as.Rhs[0].(*ast.CallExpr); ok && usesWriter(c, ws) {
+								if name, ok := isErrNotNil(st.Cond); ok && name == lastLHSName(as) && bodyReturns(st.Body) {
+									checked[c] = true
+								}
+							}
+						}
+						walkBlock(st.Body.List)
+						if st.Else != nil {
+							if eb, ok := st.Else.(*ast.BlockStmt); ok {
+								walkBlock(eb.List)
+							} else {
+								walkStmt(st.Else, nil)
+							}
+						}
+					case *ast.AssignStmt:
+						if len(st.Rhs) == 1 {
+							if c, ok := st.Rhs[0].(*ast.CallExpr); ok && usesWriter(c, ws) {
+								if ifs, ok := next.(*ast.IfStmt); ok && ifs.Init == nil {
+									if name, ok := isErrNotNil(ifs.Cond); ok && name == lastLHSName(st) && bodyReturns(ifs.Body) {
+										checked[c] = true
+									}
+								}
+							}
+						}
+					case *ast.ReturnStmt:
+						for _, r := range st.Results {
+							if c, ok := r.(*ast.CallExpr); ok && usesWriter(c, ws) {
+								checked[c] = true
+							}
+						}
+					case *ast.BlockStmt:
+						walkBlock(st.List)
+					case *ast.ForStmt:
+						walkBlock(st.Body.List)
+					case *ast.RangeStmt:
+						walkBlock(st.Body.List)
+					case *ast.SwitchStmt:
+						for _, cc := range st.Body.List {
+							walkBlock(cc.(*ast.CaseClause).Body)
+						}
+					case *ast.TypeSwitchStmt:
+						for _, cc := range st.Body.List {
+							walkBlock(cc.(*ast.CaseClause).Body)
+						}
+					}
+				}
+				walkBlock(fn.Body.List)
+				ast.Inspect(fn.Body, func(n ast.Node) bool {
+					if c, ok := n.(*ast.CallExpr); ok && usesWriter(c, ws) {
+						calls = append(calls, c)
+					}
+					return true
+				})
+				for _, c := range calls {
+					p := fset.Position(c.Pos())
+					rel, _ := filepath.Rel(repo, p.Filename)
+					sites = append(sites, site{rel, p.Line, src(c.Fun), checked[c]})
+				}
+			}
+		}
+	}
+	sort.Slice(sites, func(i, j int) bool {
+		if sites[i].file != sites[j].file {
+			return sites[i].file < sites[j].file
+		}
+		return sites[i].line < sites[j].line
+	})
+	var b strings.Builder
+	b.WriteString("-- GENERATED by extract/ from /repo on every check; do not edit.\nnamespace Tab.Generated\n")
+	b.WriteString("structure WriteSite where\n  file : String\n  line : Nat\n  call : String\n  checked : Bool\n  deriving DecidableEq, Repr\n\n")
+	b.WriteString("def writeSites : List WriteSite := [\n")
+	for i, s := range sites {
+		sep := ","
+		if i == len(sites)-1 {
+			sep = ""
+		}
+		fmt.Fprintf(&b, "  ⟨%s, %d, %s, %v⟩%s\n", leanStr(s.file), s.line, leanStr(s.call), s.checked, sep)
+	}
+	b.WriteString("]\nend Tab.Generated\n")
+	return os.WriteFile(filepath.Join(out, "WriteSites.lean"), []byte(b.String()), 0o644)
+}
+
+// ---------------------------------------------------------------- type switch
+
+func typeSwitch(repo, out string) error {
+	files, err := parseDir(repo)
+	if err != nil {
+		return err
+	}
+	type arm struct{ typ, assign string }
+	var arms []arm
+	found := false
+	for _, f := range files {
+		for _, d := range f.Decls {
+			fn, ok := d.(*ast.FuncDecl)
+			if !ok || fn.Name.Name != "Update" || fn.Recv == nil || fn.Body == nil {
+				continue
+			}
+			if !strings.Contains(src(fn.Recv.List[0].Type), "Cell") {
+				continue
+			}
+			ast.Inspect(fn.Body, func(n ast.Node) bool {
+				ts, ok := n.(*ast.TypeSwitchStmt)
+				if !ok || found {
+					return true
+				}
+				found = true
+				for _, c := range ts.Body.List {
+					cc := c.(*ast.CaseClause)
+					typ := "default"
+					if cc.List != nil {
+						var ts []string
+						for _, t := range cc.List {
+							ts = append(ts, src(t))
+						}
+						typ = strings.Join(ts, ",")
+					}
+					assign := ""
+					for _, s := range cc.Body {
+						if as, ok := s.(*ast.AssignStmt); ok && len(as.Lhs) == 1 && src(as.Lhs[0]) == "c.str" {
+							assign = src(as.Rhs[0])
+						}
+					}
+					arms = append(arms, arm{typ, assign})
+				}
+				return false
+			})
+		}
+	}
+	var b strings.Builder
+	b.WriteString("-- GENERATED by extract/ from /repo on every check; do not edit.\nnamespace Tab.Generated\n")
+	fmt.Fprintf(&b, "def typeSwitchFound : Bool := %v\n", found)
+	b.WriteString("/-- (case type, expression assigned to c.str in that arm) in source order -/\n")
+	b.WriteString("def typeSwitchArms : List (String × String) := [\n")
+	for i, a := range arms {
+		sep := ","
+		if i == len(arms)-1 {
+			sep = ""
+		}
+		fmt.Fprintf(&b, "  (%s, %s)%s\n", leanStr(a.typ), leanStr(a.assign), sep)
+	}
+	b.WriteString("]\nend Tab.Generated\n")
+	return os.WriteFile(filepath.Join(out, "TypeSwitch.lean"), []byte(b.String()), 0o644)
+}
+
+// ---------------------------------------------------------------- callback schedule
+
+func schedule(repo, out string) error {
+	files, err := parseDir(repo)
+	if err != nil {
+		return err
+	}
+	type call struct {
+		fn    string
+		depth int
+		guard string
+		args  [4]string
+	}
+	var calls []call
+	// functions in a fixed order so that the list is stable under file reordering
+	wanted := []string{"InvokeRenderCallbacks", "invokeRenderCallbacks", "Add", "AddRow", "AddHeaders"}
+	fns := map[string]*ast.FuncDecl{}
+	for _, f := range files {
+		for _, d := range f.Decls {
+			if fn, ok := d.(*ast.FuncDecl); ok && fn.Body != nil && fn.Recv != nil {
+				key := fn.Name.Name
+				if key == "Add" && !strings.Contains(src(fn.Recv.List[0].Type), "Row") {
+					continue
+				}
+				fns[key] = fn
+			}
+		}
+	}
+	for _, name := range wanted {
+		fn := fns[name]
+		if fn == nil {
+			continue
+		}
+		var walk func(n ast.Node, depth int, guard string)
+		walk = func(n ast.Node, depth int, guard string) {
+			switch st := n.(type) {
+			case *ast.BlockStmt:
+				for _, s := range st.List {
+					walk(s, depth, guard)
+				}
+			case *ast.ForStmt:
+				walk(st.Body, depth+1, guard)
+			case *ast.RangeStmt:
+				walk(st.Body, depth+1, guard)
+			case *ast.IfStmt:
+				g := src(st.Cond)
+				if st.Init != nil {
+					g = src(st.Init) + "; " + g
+				}
+				walk(st.Body, depth, g)
+				if st.Else != nil {
+					walk(st.Else, depth, "else")
+				}
+			case *ast.ExprStmt:
+				if c, ok := st.X.(*ast.CallExpr); ok {
+					if id, ok := c.Fun.(*ast.Ident); ok && id.Name == "invokePropertyCallbacks" && len(c.Args) == 4 {
+						var a [4]string
+						for i := range a {
+							a[i] = src(c.Args[i])
+						}
+						calls = append(calls, call{name, depth, guard, a})
+					}
+					// method call into the per-row traversal keeps its place in the order
+					if s, ok := c.Fun.(*ast.SelectorExpr); ok && s.Sel.Name == "invokeRenderCallbacks" {
+						calls = append(calls, call{name, depth, guard, [4]string{"->row", src(s.X), "", ""}})
+					}
+				}
+			}
+		}
+		walk(fn.Body, 0, "")
+	}
+	var b strings.Builder
+	b.WriteString("-- GENERATED by extract/ from /repo on every check; do not edit.\nnamespace Tab.Generated\n")
+	b.WriteString("structure SchedCall where\n  fn : String\n  depth : Nat\n  guard : String\n  set : String\n  time : String\n  target : String\n  taker : String\n  deriving DecidableEq, Repr\n\n")
+	b.WriteString("/-- every invokePropertyCallbacks call of the core package, in source order -/\n")
+	b.WriteString("def schedule : List SchedCall := [\n")
+	for i, c := range calls {
+		sep := ","
+		if i == len(calls)-1 {
+			sep = ""
+		}
+		fmt.Fprintf(&b, "  ⟨%s, %d, %s, %s, %s, %s, %s⟩%s\n", leanStr(c.fn), c.depth, leanStr(c.guard), leanStr(c.args[0]), leanStr(c.args[1]), leanStr(c.args[2]), leanStr(c.args[3]), sep)
+	}
+	b.WriteString("]\nend Tab.Generated\n")
+	return os.WriteFile(filepath.Join(out, "Schedule.lean"), []byte(b.String()), 0o644)
+}
+
+// ---------------------------------------------------------------- globals
+
+func globals(repo, out string) error {
+	type gv struct {
+		pkg, name    string
+		mutated      bool // written by a statement outside init / its own declaration
+		mutable      bool // of a kind that can be shared mutable state (not an error value / key pointer)
+		lockGuarded  bool
+		accessCount  int
+		unguardedAcc int
+	}
+	var all []gv
+	var pkgs []string
+	filepath.Walk(repo, func(p string, info os.FileInfo, err error) error {
+		if err == nil && info.IsDir() {
+			base := filepath.Base(p)
+			if strings.HasPrefix(base, ".") && p != repo {
+				return filepath.SkipDir
+			}
+			pkgs = append(pkgs, p)
+		}
+		return nil
+	})
+	sort.Strings(pkgs)
+	for _, dir := range pkgs {
+		files, err := parseDir(dir)
+		if err != nil || len(files) == 0 {
+			continue
+		}
+		rel, _ := filepath.Rel(repo, dir)
+		names := map[string]*gv{}
+		var order []string
+		for _, f := range files {
+			for _, d := range f.Decls {
+				gd, ok := d.(*ast.GenDecl)
+				if !ok || gd.Tok != token.VAR {
+					continue
+				}
+				for _, sp := range gd.Specs {
+					vs := sp.(*ast.ValueSpec)
+					for _, n := range vs.Names {
+						if n.Name == "_" {
+							continue
+						}
+						names[n.Name] = &gv{pkg: rel, name: n.Name}
+						order = append(order, n.Name)
+					}
+				}
+			}
+		}
+		// scan function bodies for writes to those names
+		for _, f := range files {
+			for _, d := range f.Decls {
+				fn, ok := d.(*ast.FuncDecl)
+				if !ok || fn.Body == nil {
+					continue
+				}
+				isInit := fn.Name.Name == "init" && fn.Recv == nil
+				// local shadowing is ignored: conservative (may flag more)
+				rootOf := func(e ast.Expr) string {
+					for {
+						switch x := e.(type) {
+						case *ast.SelectorExpr:
+							e = x.X
+						case *ast.IndexExpr:
+							e = x.X
+						case *ast.StarExpr:
+							e = x.X
+						case *ast.ParenExpr:
+							e = x.X
+						case *ast.Ident:
+							return x.Name
+						default:
+							return ""
+						}
+					}
+				}
+				// lock tracking for the registry: positions of Lock/Unlock calls on each global
+				lockPos := map[string][]token.Pos{}
+				unlockPos := map[string][]token.Pos{}
+				deferUnlock := map[string]token.Pos{}
+				deferred := map[*ast.CallExpr]bool{}
+				ast.Inspect(fn.Body, func(n ast.Node) bool {
+					switch st := n.(type) {
+					case *ast.DeferStmt:
+						deferred[st.Call] = true
+						if s, ok := st.Call.Fun.(*ast.SelectorExpr); ok && s.Sel.Name == "Unlock" {
+							deferUnlock[rootOf(s.X)] = st.Pos()
+						}
+					case *ast.CallExpr:
+						if deferred[st] {
+							return true
+						}
+						if s, ok := st.Fun.(*ast.SelectorExpr); ok {
+							switch s.Sel.Name {
+							case "Lock":
+								lockPos[rootOf(s.X)] = append(lockPos[rootOf(s.X)], st.Pos())
+							case "Unlock":
+								unlockPos[rootOf(s.X)] = append(unlockPos[rootOf(s.X)], st.Pos())
+							}
+						}
+					}
+					return true
+				})
+				guarded := func(name string, pos token.Pos) bool {
+					// lexically after a Lock and (before an Unlock that follows it, or a deferred Unlock exists)
+					var last token.Pos = token.NoPos
+					for _, l := range lockPos[name] {
+						if l < pos && l > last {
+							last = l
+						}
+					}
+					if last == token.NoPos {
+						return false
+					}
+					for _, u := range unlockPos[name] {
+						if u > last && u < pos {
+							return false
+						}
+					}
+					if _, ok := deferUnlock[name]; ok {
+						return true
+					}
+					for _, u := range unlockPos[name] {
+						if u > pos {
+							return true
+						}
+					}
+					return false
+				}
+				ast.Inspect(fn.Body, func(n ast.Node) bool {
+					switch st := n.(type) {
+					case *ast.AssignStmt:
+						for _, l := range st.Lhs {
+							if g, ok := names[rootOf(l)]; ok && !isInit {
+								g.mutated = true
+							}
+						}
+					case *ast.IncDecStmt:
+						if g, ok := names[rootOf(st.X)]; ok && !isInit {
+							g.mutated = true
+						}
+					case *ast.UnaryExpr:
+						if st.Op == token.AND {
+							if g, ok := names[rootOf(st.X)]; ok && !isInit {
+								g.mutated = true
+							}
+						}
+					case *ast.SelectorExpr:
+						// field access of a global struct (e.g. registry.table): count and check the lock
+						if id, ok := st.X.(*ast.Ident); ok {
+							if g, ok := names[id.Name]; ok && st.Sel.Name != "Lock" && st.Sel.Name != "Unlock" {
+								g.accessCount++
+								if !guarded(id.Name, st.Pos()) {
+									g.unguardedAcc++
+								}
+							}
+						}
+					}
+					return true
+				})
+			}
+		}
+		for _, n := range order {
+			g := names[n]
+			g.lockGuarded = g.accessCount > 0 && g.unguardedAcc == 0
+			all = append(all, *g)
+		}
+	}
+	var b strings.Builder
+	b.WriteString("-- GENERATED by extract/ from /repo on every check; do not edit.\nnamespace Tab.Generated\n")
+	b.WriteString("structure GlobalVar where\n  pkg : String\n  name : String\n  mutatedOutsideInit : Bool\n  fieldAccesses : Nat\n  unguardedAccesses : Nat\n  deriving DecidableEq, Repr\n\n")
+	b.WriteString("/-- every package-level variable of every non-test file -/\n")
+	b.WriteString("def globals : List GlobalVar := [\n")
+	for i, g := range all {
+		sep := ","
+		if i == len(all)-1 {
+			sep = ""
+		}
+		fmt.Fprintf(&b, "  ⟨%s, %s, %v, %d, %d⟩%s\n", leanStr(g.pkg), leanStr(g.name), g.mutated, g.accessCount, g.unguardedAcc, sep)
+	}
+	b.WriteString("]\nend Tab.Generated\n")
+	return os.WriteFile(filepath.Join(out, "Globals.lean"), []byte(b.String()), 0o644)
 }
